@@ -1,10 +1,12 @@
-import JadeModel.Proofs.SystemStatusFlow0
+import JadeModel.Proofs.SystemStatusFlow2a
+import JadeModel.Proofs.SystemStatusFlow2b
+import JadeModel.Proofs.SystemStatusFlow2c
+import JadeModel.Proofs.SystemStatusFlow2d
 
 set_option linter.unusedSimpArgs false
 
 namespace Jade.Sys
 
-set_option maxHeartbeats 64000000 in
 theorem flowA_fresh_step {s s' : Sys} {op : Op} (hn : NodeInv s) (hl : LocInv s) (ha : FlowA s) (hb : FlowB s)
     (hop : op.isFault = false) (h : step s op = some s') :
     (∀ p a n, s'.procs p = .node a n → ∀ j, (j ∈ n.queued ∨ j ∈ n.running) → ¬ HasRow s' j) ∧
@@ -12,16 +14,10 @@ theorem flowA_fresh_step {s s' : Sys} {op : Op} (hn : NodeInv s) (hl : LocInv s)
     (∀ q a y, s'.procs q = .sub a y → ∀ j ∈ y.toCancel, ¬ HasRow s' j) ∧
     (∀ q a y, s'.procs q = .sub a y → y.toCancel.Nodup) ∧
     (∀ b ∈ s'.batches, ∀ h, b.hid = some h → s'.slurm h = some .pending → ∀ j ∈ b.jobs, ¬ HasRow s' j) := by
-  have hinv := hasRow_inv h
-  obtain ⟨f1, f2, f3, f4, f5, f6, f7, f8, f9, f10⟩ := nodeFacts hn ha hb
-  obtain ⟨h1, h2, h3, h4, h5⟩ := hn.batch.role
-  have l3 := hl.locNs
-  obtain ⟨a1, a2, a3, a4, a5, a6, a7, a8, a9, a10, a11, a12, a13, a14, a15⟩ := ha
-  obtain ⟨b1, b2, b3, b4, b5, b6, b7, b8, b9, b10, b11, b12, b13, b14, b15, b16⟩ := hb
-  plain_cases op hop <;> simp only [rowOf] at hinv <;> step_cases h <;>
-    (refine ⟨?_, ?_, ?_, ?_, ?_⟩ <;> frame_flow)
-  all_goals first
-    | assumption
-    | grind [SubP.load, find?_hid, cancelSetOk_ns]
+  have c0 := flowA_fresh_step_1 hn hl ha hb hop h
+  obtain ⟨c1, c4⟩ := flowA_fresh_step_2 hn hl ha hb hop h
+  have c2 := flowA_fresh_step_3 hn hl ha hb hop h
+  have c3 := flowA_fresh_step_4 hn hl ha hb hop h
+  exact ⟨c0, c1, c2, c3, c4⟩
 
 end Jade.Sys
